@@ -76,6 +76,11 @@ class GotranCCodePrinter(C99CodePrinter):
             factors = converted
         return super()._print_Mul(sympy.Mul(*factors, evaluate=False))
 
+    def _print_Mod(self, expr):
+        # fmod takes the sign of the dividend; Mod (as in sympy and Python) that of the divisor
+        a, b = (self._print(arg) for arg in expr.args)
+        return f"fmod(fmod({a}, {b}) + ({b}), {b})"
+
     def _print_Piecewise(self, expr):
         if isinstance(expr.args[0][0], Assignment):
             result = []
